@@ -208,7 +208,7 @@ func (c *ctx) signSOD(v variant) (*issuer.SignedData, error) {
 	if pki == nil {
 		pki = c.pki
 	}
-	o := issuer.SODOptions{LDSVersion: c.b.LDSVersion, Omit: v.omit,
+	o := issuer.SODOptions{HashOrder: int(c.b.Era+c.b.SID+c.b.LDSVersion) % 4, LDSVersion: c.b.LDSVersion, Omit: v.omit,
 		ExtraHashes: map[int][]byte{3: issuer.Digest(c.b.LDSHash, []byte("not readable"))}}
 	o.CMSOptions = c.cmsOptions()
 	o.Signer, o.SignKey, o.Mutate, o.Encoding = v.signer, v.signKey, v.mutate, c.encoding()
